@@ -38,6 +38,61 @@ class Violation(Exception):
         self.case = None
 
 
+class CaseTimeout(BaseException):
+    """a single call into the library did not return within CALL_LIMIT_S seconds
+    (BaseException: no `except Exception` in the library or the harness swallows it).
+    Normal calls take milliseconds.  A wall-clock limit is never a verdict: the case
+    is saved, counted as inconclusive, reported on an INCONCLUSIVE line, and the run
+    goes on - the point is only that one non-terminating call cannot hang a check."""
+
+
+CALL_LIMIT_S = int(os.environ.get("VERIF_CALL_LIMIT_S", "120"))
+MAX_TIMEOUTS_PER_WORKER = 2      # afterwards the worker skips its remaining cases
+
+
+def _on_alarm(signum, frame):
+    raise CaseTimeout()
+
+
+class watchdog(object):
+    """with watchdog(): <one call into the library>"""
+
+    def __enter__(self):
+        import signal
+        import threading
+        self.on = threading.current_thread() is threading.main_thread() and CALL_LIMIT_S > 0
+        if self.on:
+            signal.signal(signal.SIGALRM, _on_alarm)
+            signal.alarm(CALL_LIMIT_S)
+
+    def __exit__(self, *exc):
+        if self.on:
+            import signal
+            signal.alarm(0)
+        return False
+
+
+def note_timeout(ctx, stats):
+    """bookkeeping for a CaseTimeout: save the case, count it"""
+    stats.budget_skipped += 1
+    ctx.timeouts = getattr(ctx, "timeouts", 0) + 1
+    ctx.notes["inconclusive:call_did_not_return_within_%ds" % CALL_LIMIT_S] += 1
+    try:
+        pid = getattr(ctx, "pid", None) or "unknown"
+        d = os.path.join(env.VERIF_DIR, "replays", pid)
+        os.makedirs(d, exist_ok=True)
+        body = canon(ctx.case)
+        path = os.path.join(d, "timeout-%s.json" % hashlib.sha256(body.encode()).hexdigest()[:8])
+        if len([f for f in os.listdir(d) if f.startswith("timeout-")]) < 5:
+            with open(path, "w") as f:
+                json.dump(dict(property=pid, label="inconclusive_timeout",
+                               detail="a call did not return within %d s" % CALL_LIMIT_S,
+                               case=json.loads(body)), f, indent=1)
+        ctx.timeout_files.add(os.path.relpath(path, env.VERIF_DIR))
+    except Exception:
+        pass
+
+
 class SkipCase(Exception):
     """the rest of this case is not judged (label excluded in a later round or
     explained by an open known finding)"""
@@ -69,6 +124,8 @@ class Ctx(object):
         self.known_hits = collections.Counter()
         self.case = None
         self.notes = collections.Counter()
+        self.pid = None
+        self.timeout_files = set()
 
     def fail(self, label, detail=""):
         for labels, pred, kid in self.known_open:
@@ -90,7 +147,7 @@ class Ctx(object):
         """Calls into PySpike.  An exception there on in-contract input is a
         violation of the property under check, labelled by the call site."""
         try:
-            with env.quiet():
+            with env.quiet(), watchdog():
                 return fn(*a, **k)
         except (Violation, SkipCase, env.HarnessError):
             raise
@@ -237,6 +294,10 @@ def run_any(mod, case, ctx):
 
 
 def _run_one(mod, ctx, stats, case, phase_name, by_construction=False):
+    if getattr(ctx, "timeouts", 0) >= MAX_TIMEOUTS_PER_WORKER:
+        stats.budget_skipped += 1
+        ctx.notes["skipped_after_repeated_timeouts"] += 1
+        return None
     base = case["sequence_of"][-1] if "sequence_of" in case else case
     _account(mod, stats, base, phase_name, by_construction)
     ctx.case = case
@@ -252,6 +313,8 @@ def _run_one(mod, ctx, stats, case, phase_name, by_construction=False):
                 mod.run_case(sib, ctx)
     except SkipCase:
         stats.skipped += 1
+    except CaseTimeout:
+        note_timeout(ctx, stats)
     finally:
         ctx.shim.set(False)
     return None
@@ -274,6 +337,7 @@ def _worker_inner(job):
     mod = importlib.import_module("pbt.props." + pid.lower())
     phase = mod.PHASES[phase_idx]
     ctx = Ctx(shim, excluded, _known_open(mod, pid))
+    ctx.pid = pid
     stats = Stats()
     violations = []
     herr = None
@@ -526,6 +590,10 @@ def run_replay(mod, pid, path):
         print("replay: %s  %s" % (v.label, v.detail))
         print("VIOLATION property=%s replay=%s" % (pid, os.path.relpath(path, env.VERIF_DIR)))
         return 1
+    except CaseTimeout:
+        print("INCONCLUSIVE property=%s replay: a call did not return within %d s (not a verdict)"
+              % (pid, CALL_LIMIT_S))
+        return 0
     finally:
         shim.set(False)
     print("replay: case passes")
@@ -729,6 +797,10 @@ def _main(mod, pid, args, shim, t0):
     with open(os.path.join(evdir, pid + ".json"), "w") as f:
         json.dump(ev, f, indent=1, default=_json_default)
     ndist = len(total.nontrivial) + total.nontrivial_enum
+    for k_, n_ in sorted(notes.items()):
+        if k_.startswith("inconclusive:"):
+            print("INCONCLUSIVE property=%s %d case(s): %s (saved under replays/%s/timeout-*.json; "
+                  "not a verdict)" % (pid, n_, k_[len("inconclusive:"):], pid))
     print("%s %s seed=%d: %d cases (%d distinct non-trivial), %d violation label(s), %.1fs"
           % (pid, tier, seed, total.evals, ndist, len(found), wall))
     if hasattr(mod, "post_check") and not found and args.scale >= 1 \
